@@ -64,21 +64,32 @@ def detail(mm):
 
 
 def run_witnesses(binp, sc, v):
-    """Witness files are recorded behaviours (TR lines); the disagreement must still be there."""
-    n = 0
-    for k, f in enumerate(lib.load_findings(PID)):
-        if not f.get("witness_file"):
-            continue
-        rep = replay_file(binp, os.path.join(lib.VERIF, f["witness_file"]))
-        mms = confirm(binp, rep["mismatches"], sc, "w%d" % k)
-        for mm in mms:
-            d = detail(mm)
-            d["witness_of"] = f["id"]
-            v.add(mm["signature"], d)
-        if not mms:
+    """Witness files are recorded behaviours (TR lines, each starting at step 1); they are replayed
+    together in one process and the disagreement of each must still be there."""
+    fs = [f for f in lib.load_findings(PID) if f.get("witness_file")]
+    if not fs:
+        return 0
+    allp = os.path.join(sc, "witnesses.ndjson")
+    owner, n = [], 0
+    with open(allp, "w") as out:
+        for f in fs:
+            for line in open(os.path.join(lib.VERIF, f["witness_file"])):
+                if line.strip():
+                    out.write(line.strip() + "\n")
+                    owner.append(f["id"])
+                    n += 1
+    rep = replay_file(binp, allp, maxmm=10 ** 6)
+    mms = confirm(binp, rep["mismatches"], sc, "w")
+    hit = set()
+    for mm in mms:
+        d = detail(mm)
+        d["witness_of"] = owner[mm["case"]]
+        hit.add(owner[mm["case"]])
+        v.add(mm["signature"], d)
+    for f in fs:
+        if f["id"] not in hit:
             lib.log("[C43] NOTE: the witness of %s no longer disagrees with the specification" % f["id"])
-        n += len(mms)
-    return n
+    return len(mms)
 
 
 def model_check(cfg, workers):
